@@ -432,6 +432,13 @@ def multistream_case(job):
                 ("MinLeakMultiStreamAsserts" if alg == "MinLeakage" else None))
     except Exception as ex:
         return f"{alg}.solve(Ns=2) raised {type(ex).__name__}: {ex}", None
+    try:
+        return _multistream_judge(s, ch, alg, pw), None
+    except Exception as ex:          # noqa
+        return f"{alg}.solve(Ns=2): the solution cannot be examined: {type(ex).__name__}: {ex}", None
+
+
+def _multistream_judge(s, ch, alg, pw):
     bad = []
     for k in range(3):
         Fk = np.asarray(s.F[k])
@@ -458,7 +465,7 @@ def multistream_case(job):
                     leak = np.linalg.norm(np.asarray(s.W_H[k]).dot(ch.get_Hkl(k, l)).dot(s.F[l]))
                     if leak > 1e-7:
                         bad.append(f"closed-form solution (2 streams) leaks {leak:.2e} from user {l} into user {k}")
-    return ("; ".join(bad) if bad else None), None
+    return "; ".join(bad) if bad else None
 
 
 def seed_solver(s, seed):
@@ -470,7 +477,15 @@ def seed_solver(s, seed):
 
 
 def solution_defects(s, ch, alg, K, Nr, Nt, pw):
-    """the statement's relations on a solved solver (rel): shapes vs Ns, unit norm, power, own channel -> identity"""
+    """the statement's relations on a solved solver (rel): shapes vs Ns, unit norm, power, own channel -> identity.
+    Total: whatever the solver's getters raise or return while they are compared is a defect of the solution."""
+    try:
+        return _solution_defects(s, ch, alg, K, Nr, Nt, pw)
+    except Exception as ex:          # noqa
+        return [f"the solution cannot be examined: {type(ex).__name__}: {ex} (F, W_H or a derived quantity is missing or malformed)"]
+
+
+def _solution_defects(s, ch, alg, K, Nr, Nt, pw):
     bad = []
     for k in range(K):
         Fk = np.asarray(s.F[k])
